@@ -35,6 +35,11 @@ theorem validates_eq (t : Tag) (d : DType) : validatesT t d = validates d t := b
   | ty v =>
     cases k <;> cases v <;> simp [validatesT, validates, Tag.typeOf] <;> grind
 
+/-- on an exact instance of class `v`, `infer_kind` names `v` itself (so classifying a later element with `infer_kind`, as
+    `promote_with` does since the repair of the subclass-instance defect, is classifying it by its type) -/
+theorem inferKind_exact (v : Kind) : inferKindT (Tag.ty v) = some v := by
+  cases v <;> simp [inferKindT, Kind.isInstanceAny, Kind.subclass, Tag.typeOf]
+
 /-- `DataType.promote_with` as translated = the model's `promote` -/
 theorem promoteWith_eq (d : DType) (t : Tag) : promoteWithT d t = promote d t := by
   obtain ⟨k, n⟩ := d
@@ -42,7 +47,7 @@ theorem promoteWith_eq (d : DType) (t : Tag) : promoteWithT d t = promote d t :=
   | none => cases n <;> simp [promoteWithT, promote]
   | ty v =>
     cases k <;> cases v <;>
-      simp [promoteWithT, promote, isNumericT, isTemporalT, Kind.isSubclassAny, Kind.isInstanceAny, Kind.subclass,
+      simp [promoteWithT, inferKind_exact, promote, isNumericT, isTemporalT, Kind.isSubclassAny, Kind.isInstanceAny, Kind.subclass,
         Kind.isNumeric, Kind.isTemporal, Tag.typeOf] <;> grind
 
 /-- the translated loop state corresponds to the model's loop state -/
